@@ -57,11 +57,12 @@ Definition SEEK_LIMIT : Z := 2 ^ 63.      (* BytesIO.seek(pos >= 2**63) raises O
 
 (* common/utils.py struct_parse(struct, stream, stream_pos): seek, parse;
    ConstructError and the OverflowError of an unseekable position -> ELFParseError.
-   [window L] hands the decoder the sizeof(L) bytes a static Struct reads (the whole rest of the
-   stream when L has arrays): same result, cost independent of the stream length *)
+   [decode_rec L] (Spec/C01Obs.v) hands the decoder the sizeof(L) bytes a static Struct reads; for a
+   Struct with arrays it checks the counts against what is left of the stream before decoding the
+   arrays: same result, cost bounded by the stream length *)
 Definition struct_parse_at (L : layout) (b : binds) (img : list Z) (pos : Z) : res hrec :=
   if SEEK_LIMIT <=? pos then Err EParse
-  else match decode_layout L (window L (drop pos img)) with
+  else match decode_rec L (drop pos img) with
        | Some (r, _) => match adapt b r with Some h => Ok h | None => Err EParse end
        | None => Err EParse
        end.
